@@ -6,7 +6,7 @@ from __future__ import annotations
 
 import ast
 import re
-from typing import Iterable, Iterator, Optional
+from typing import Callable, Iterable, Iterator, Optional
 
 try:  # Python >= 3.11
     import re._constants as _sc
@@ -534,7 +534,15 @@ def text_tails(e: Optional[ast.AST], fn: ast.AST, mod: Module, depth: int = 5, e
             sp = placeholders(t)
             rest = t[sp[-1][1]:] if sp else t
             if not rest.strip():
-                return None  # ends with a conversion: the end is whatever is formatted in
+                # ends with a conversion (and white space): the end is whatever is formatted in last - followed where that is text
+                # whose own end is known (a %s filled from a template, from a function of the module that returns templates)
+                last = e.right.elts[-1] if isinstance(e.right, ast.Tuple) and e.right.elts else (None if isinstance(e.right, (ast.Tuple, ast.Dict)) else e.right)
+                conv = t[sp[-1][0]:sp[-1][1]] if sp else ""
+                inner_t = text_tails(last, fn, mod, depth - 1, env) if (last is not None and conv == "%s" and (len(sp) == 1 or isinstance(e.right, ast.Tuple))) else None
+                if inner_t is None:
+                    return None
+                out += [a + rest for a in inner_t]
+                continue
             out.append(rest)
         return out
     if isinstance(e, ast.BinOp) and isinstance(e.op, ast.Add):
@@ -1369,3 +1377,119 @@ class PackageFlow:
                 ch = self.enter(x, fr)
                 if ch is not None and id(ch.fn) not in skip_ids:
                     yield from self.reached(ch, skip)
+
+
+# ======================================================================================================================
+# path conditions (round 3): "this statement is not reached when <fact> holds", decided from what every test on the way says
+# ======================================================================================================================
+
+def path_conditions(mod: Module, node: ast.AST, fn: ast.AST) -> list[tuple[ast.expr, bool]]:
+    """(test, value the test has) for every test that is decided on every way from the entry of `fn` to `node`, read off the
+    block structure: an enclosing if / while / conditional expression (body: holds, orelse: does not), and every earlier
+    statement of an enclosing block that is an `if` one arm of which always leaves (the other arm's condition holds after
+    it).  Guard clauses, else branches, elif chains (and `match` arms once a view wrote them as elif) are the same here."""
+    out: list[tuple[ast.expr, bool]] = []
+    child = node
+    for p in mod.parents(node):
+        if isinstance(p, (ast.If, ast.While)):
+            if any(child is s for s in p.body):
+                out.append((p.test, True))
+            elif isinstance(p, ast.If) and any(child is s for s in p.orelse):
+                out.append((p.test, False))
+        elif isinstance(p, ast.IfExp):
+            if child is p.body:
+                out.append((p.test, True))
+            elif child is p.orelse:
+                out.append((p.test, False))
+        for fld in ("body", "orelse", "finalbody"):
+            blk = getattr(p, fld, None)
+            if isinstance(blk, list) and any(child is s for s in blk):
+                for s in blk:
+                    if s is child:
+                        break
+                    if isinstance(s, ast.If):
+                        leaves_b = bool(s.body) and isinstance(s.body[-1], (ast.Return, ast.Raise, ast.Continue, ast.Break))
+                        leaves_e = bool(s.orelse) and isinstance(s.orelse[-1], (ast.Return, ast.Raise, ast.Continue, ast.Break))
+                        if leaves_b and not leaves_e:
+                            out.append((s.test, False))
+                        elif leaves_e and not leaves_b:
+                            out.append((s.test, True))
+        if p is fn:
+            break
+        child = p
+    return out
+
+
+def excluded_on_path(conds: list[tuple[ast.expr, bool]], fact: Callable[[ast.expr], "bool | None"], fn: ast.AST) -> bool:
+    """can the conjunction of `conds` not hold together with the fact?  `fact(e)` says whether the atomic test e IS the fact
+    (True), its negation (False) or something else (None).  and / or / not are evaluated; every other test is an atom that is
+    the same atom wherever its text is the same and nothing it mentions is re-bound in `fn` (otherwise each occurrence is an
+    atom of its own, free).  All assignments of the atoms are tried with the fact true: excluded only if none satisfies the
+    path.  Atoms are left free, so this can only err towards 'not excluded'."""
+    rebound = {n.id for n in ast.walk(fn) if isinstance(n, ast.Name) and isinstance(n.ctx, (ast.Store, ast.Del))}
+    atoms: dict[object, int] = {}
+
+    def build(e: ast.expr) -> Callable[[tuple[bool, ...]], bool]:
+        if isinstance(e, ast.UnaryOp) and isinstance(e.op, ast.Not):
+            inner = build(e.operand)
+            return lambda a: not inner(a)
+        if isinstance(e, ast.BoolOp):
+            parts = [build(v) for v in e.values]
+            if isinstance(e.op, ast.And):
+                return lambda a: all(p(a) for p in parts)
+            return lambda a: any(p(a) for p in parts)
+        if isinstance(e, ast.NamedExpr):
+            return build(e.value)
+        pol = fact(e)
+        if pol is not None:
+            return (lambda a: True) if pol else (lambda a: False)
+        key: object = norm(e)
+        if any(isinstance(x, ast.Name) and x.id in rebound for x in ast.walk(e)) or any(isinstance(x, (ast.Call, ast.Await, ast.Yield)) and not (
+                isinstance(x.func, ast.Name) and x.func.id in ("isinstance", "issubclass", "callable", "len", "type")) for x in ast.walk(e) if isinstance(x, ast.Call)):
+            key = id(e)
+        i = atoms.setdefault(key, len(atoms))
+        return lambda a: a[i]
+
+    fs = [(build(t), v) for t, v in conds]
+    if len(atoms) > 14:
+        return False
+    import itertools
+    for a in itertools.product((False, True), repeat=len(atoms)):
+        if all(f(a) == v for f, v in fs):
+            return False
+    return True
+
+
+def wrapping_closures(mod: Module, f: ast.AST) -> list[tuple[ast.FunctionDef, str]]:
+    """[(closure, name under which the closure knows the decorated function)] for a method all of whose decorators are plain
+    functions of the module of the form `def D(r): [@wraps(r)] def W(self, ..): ...; return W` - the method the class ends up
+    with is W (outermost first), and a call `r(..)` in W runs the decorated body.  The closure must call its receiver by the
+    name the method does (its first parameter), so that what it does with `self` reads the same.  Anything else: [] (the
+    method is judged on its own body, as it is written)."""
+    decs = list(getattr(f, "decorator_list", []))
+    args = getattr(f, "args", None)
+    if not decs or args is None or not (args.posonlyargs + args.args):
+        return []
+    recv = (args.posonlyargs + args.args)[0].arg
+    out: list[tuple[ast.FunctionDef, str]] = []
+    for d in decs:
+        dd = mod.defs.get(d.id) if isinstance(d, ast.Name) else None
+        if not isinstance(dd, ast.FunctionDef) or dd.decorator_list:
+            return []
+        ps = dd.args.posonlyargs + dd.args.args
+        if len(ps) != 1 or dd.args.vararg or dd.args.kwarg or dd.args.kwonlyargs:
+            return []
+        r = ps[0].arg
+        body = [st for st in dd.body if not (isinstance(st, ast.Expr) and isinstance(st.value, ast.Constant))]
+        if not (len(body) == 2 and isinstance(body[0], ast.FunctionDef) and isinstance(body[1], ast.Return) and isinstance(body[1].value, ast.Name)
+                and body[1].value.id == body[0].name):
+            return []
+        w = body[0]
+        for wd in w.decorator_list:
+            if not (isinstance(wd, ast.Call) and norm(wd.func).split(".")[-1] == "wraps" and len(wd.args) == 1 and isinstance(wd.args[0], ast.Name) and wd.args[0].id == r):
+                return []
+        wps = w.args.posonlyargs + w.args.args
+        if not wps or wps[0].arg != recv or any(isinstance(n, ast.Name) and n.id == r and isinstance(n.ctx, (ast.Store, ast.Del)) for n in ast.walk(w)):
+            return []
+        out.append((w, r))
+    return out
